@@ -61,8 +61,16 @@ Owner(kind, r) ==
 ClassOf(kind, op) == IF op \in ReadsOf(kind) THEN "read" ELSE IF op \in MutsOf(kind) THEN "mut" ELSE IF op \in DerivsOf(kind) THEN "deriv"
                      ELSE IF op \in DrawsOf(kind) THEN "draw" ELSE "unknown"
 
-\* the content after a script: the content-changing calls, in order
-ContentOf(kind, script) == SelectSeq(script, LAMBDA o : o \in MutsOf(kind) \cup DerivsOf(kind) \cup DrawsOf(kind))
+\* derivations that hand back the SAME content in a new object: a copy, a pickle, a file round trip, a second construction from the
+\* caller's arrays answer every read exactly like the object they were made from
+TransparentOf(kind) == CASE kind = "samples" -> {"copy", "pickle", "roundtrip"} [] kind = "data" -> {"copy", "pickle"} [] OTHER -> {}
+\* ... and a second construction from the arrays the caller still holds starts over: whatever was sliced or masked before is forgotten
+ResetsOf(kind) == IF kind = "data" THEN {"rebuild"} ELSE {}
+LastReset(kind, script) == LET S == {k \in DOMAIN script : script[k] \in ResetsOf(kind)} IN IF S = {} THEN 0 ELSE CHOOSE k \in S : \A j \in S : j <= k
+\* the content after a script: the content-changing calls since the last reset, in order
+ContentOf(kind, script) ==
+  SelectSeq(SubSeq(script, LastReset(kind, script) + 1, Len(script)),
+            LAMBDA o : o \in (MutsOf(kind) \cup DerivsOf(kind) \cup DrawsOf(kind)) \ (TransparentOf(kind) \cup ResetsOf(kind)))
 \* the ideal object: a read's value is an (uninterpreted) function of the read and the content
 Ideal(kind, r, script) == <<r, ContentOf(kind, script)>>
 =============================================================================
